@@ -1,4 +1,6 @@
 import Driver.Parse
+import AvroModel.Impl.Rabin
+import AvroModel.Spec.Crc64
 open Avro Avro.Impl Driver
 
 /-- `ser <allowSlow> <budget|-> <schema> <sv> [ext entries]` → `ok <hex>` / `err` / `panic`. -/
@@ -18,6 +20,13 @@ def runSer : P String := do
     | .error .panic => pure "panic"
     | .error _ => pure "err"
 
+/-- `crc <bytes>` → fingerprint by the model; oracle: the specification's bit-serial CRC. -/
+def runCrc : P String := do
+  let bs ← pBytes
+  let fp := rabinFingerprint bs
+  let verdict := if fp = Spec.fingerprintLE bs then "ok" else "VIOLATION fingerprint differs from CRC-64-AVRO of the specification"
+  pure s!"fp {bytesToHex fp} # {verdict}"
+
 def dispatch (line : String) : String :=
   let toks := (line.splitOn " ").filter (· ≠ "")
   match toks with
@@ -25,6 +34,7 @@ def dispatch (line : String) : String :=
   | cmd :: rest =>
     let p : Option (P String) := match cmd with
       | "ser" => some runSer
+      | "crc" => some runCrc
       | _ => none
     match p with
     | none => s!"bad-case unknown stream {cmd}"
